@@ -113,10 +113,12 @@ BTypeOK(c, b) ==
 (*                                                                         *)
 (* r.log   every record_failure(k) made while closed since the last        *)
 (*         transition, as [k, t]; never pruned.                            *)
-(* r.stale the same entries from before the last *close* (kept only to     *)
-(*         explain a stale-history opening as a C07 violation).            *)
+(* r.stale every earlier record_failure that must no longer count (made     *)
+(*         before the last transition, or while open / half-open); kept     *)
+(*         only to explain a stale-history opening as a C07 violation.      *)
 (***************************************************************************)
-RInit == [phase |-> "closed", t0 |-> NoTime, out |-> FALSE, log |-> <<>>, stale |-> <<>>]
+RInit == [phase |-> "closed", t0 |-> NoTime, out |-> FALSE, log |-> <<>>, stale |-> <<>>,
+          closedOnce |-> FALSE]
 
 InWin(c, e, t) == t - e < c.W            \* half-open window (t-W, t]
 
@@ -153,6 +155,9 @@ RExpect(c, r, op, k, t) ==
            ELSE Obs(TRUE, "-", "closed")
       [] op = "cancel" -> Obs(TRUE, "-", r.phase)
 
+\* entries that could still matter for an explanation at time t (bookkeeping only)
+Recent(c, log, t) == SelectSeq(log, LAMBDA e : t - e.t < c.W)
+
 \* next reference state.  It follows the *observed* post-state `state` so that
 \* after a disagreement the remainder of a trace is still judged sensibly;
 \* when observation and expectation agree this is the reference semantics.
@@ -163,8 +168,11 @@ RNext(c, r, op, k, t, allowed, state) ==
          t0    |-> IF state = "open" THEN t ELSE r.t0,
          out   |-> state = "half",
          log   |-> <<>>,
-         stale |-> IF state = "closed" THEN r.stale \o r.log ELSE r.stale]
+         stale |-> Recent(c, IF op = "fail" THEN Append(r.stale \o r.log, [k |-> k, t |-> t])
+                                            ELSE r.stale \o r.log, t),
+         closedOnce |-> r.closedOnce \/ state = "closed"]
     ELSE IF r.phase = "closed" /\ op = "fail" THEN [r EXCEPT !.log = Append(@, [k |-> k, t |-> t])]
+    ELSE IF op = "fail" THEN [r EXCEPT !.stale = Recent(c, Append(@, [k |-> k, t |-> t]), t)]   \* while open / half-open
     ELSE IF r.phase = "half" /\ op = "allow" /\ allowed THEN [r EXCEPT !.out = TRUE]
     ELSE IF r.phase = "half" /\ op = "cancel" THEN [r EXCEPT !.out = FALSE]
     ELSE r
@@ -178,7 +186,7 @@ RJudge(c, r, op, k, t, allowed, ev, state) ==
             \* opened although the reference says no, and entries recorded before
             \* the last close would explain it
             /\ r.phase = "closed" /\ op = "fail" /\ state = "open" /\ x.state = "closed"
-            /\ ShouldOpen(c, r.stale \o r.log, k, t)
+            /\ r.closedOnce /\ ShouldOpen(c, r.stale \o r.log, k, t)
     IN  IF ~bad THEN {}
         ELSE IF r.phase = "closed" THEN
                  (IF op = "fail" THEN {"C06:fail-opens-iff-threshold-in-window"}
